@@ -106,3 +106,19 @@ PROPS["C09"] = dict(
     assumptions=["A1 no shared mutable state", "A2 rayon indexed collect order", "batch size > 0 (chunks(0) panics; see C05)"],
     drivers=[drivers.scan_shared_state],
 )
+
+PROPS["C12"] = dict(
+    no_harness=True,
+    rule=("for build V1 (fresh and pre-existing destination), V3, V4 and compact V1 (thorough: V1..V4 x fresh/pre-existing, "
+          "compact V1..V3): the real system-call trace (strace) is abstracted to create/write/rename/unlink operations and "
+          "checked against the model's safe shape; then every relevant call (quick: every open/rename/unlink/fsync and every "
+          "second write/lseek/close; thorough: all) is made to fail with ENOSPC and, separately, to kill the process "
+          "(strace fault injection), plus file-size limits (short writes); after each run the destination is classified "
+          "old / new (opens and every file reads back) / partial. non-trivial = a fault after the first byte was written"),
+    trusted_base=COMMON_TB + [
+        "rename(2) replaces the destination atomically (one step of the model); durability across power loss is outside "
+        "the property", "strace's view of the process is complete (single-threaded operations) and tools/drivers.py "
+        "abstracts it faithfully (descriptor-to-path tracking)"],
+    assumptions=["rename atomic", "faults are injected one at a time"],
+    drivers=[drivers.c12_driver],
+)
